@@ -87,6 +87,9 @@ def check_C06(tier, seed):
     if res is not None:
         from . import inccheck
         v.add_tlc("inc_quick.cfg", res, ["P_C13_Flatten", "P_C13_PositionRestored"])
+        # positions across include files: the rejected texts that contain an include
+        res.behaviours = [b for b in res.behaviours if b["parses"][0]["exp"]["status"] == "fail"
+                          and any(t["v"] == "include" for t in b["parses"][0]["toks"])]
         inccheck.replay(v, exe, res, aspects={"diag", "diagpos"}, seed=seed, tag="C06")
     v.cov["exhaustive"] = True
     return v.finish(rule="every token sequence up to the configured length with a line break choice before every token, "
@@ -165,6 +168,7 @@ def check_C07(tier, seed):
         from . import inccheck
         res = run_tlc("MC_Inc.tla", os.path.join("mc", "inc_quick.cfg"))
         v.add_tlc("inc_quick.cfg", res, ["P_C13_Flatten"])
+        res.behaviours = [b for b in res.behaviours if any(t["v"] == "include" for t in b["parses"][0]["toks"])]
         inccheck.replay(v, exe, res, aspects={"balance"}, seed=seed, tag="C07inc")
     v.cov["exhaustive"] = True
     return v.finish(rule="every token sequence up to the configured length (every cut and corruption point of every short text) "
@@ -257,7 +261,7 @@ def check_C03(tier, seed):
 def check_C02(tier, seed):
     v = Verdict("C02", tier, seed)
     exe = build_driver("asan")
-    run_lex(v, exe, cfgs(tier, ["lex_initial_quick.cfg", "lex_words_quick.cfg", "lex_dqesc_quick.cfg", "lex_slash_quick.cfg"], ["lex_initial_thorough.cfg"]), seed, "C02")
+    run_lex(v, exe, cfgs(tier, ["lex_initial_quick.cfg", "lex_dqesc_quick.cfg", "lex_slash_quick.cfg"], ["lex_words_quick.cfg", "lex_initial_thorough.cfg"]), seed, "C02")
     res = tlc_parse(v, "C02_parse_quick.cfg", INV_PARSE[2:])
     parsecheck.replay(v, exe, res, aspects={"balance"}, seed=seed, renderings=("canonical",), tag="C02")
     # the same kind of input on a context that has a search path (sections share the path list)
